@@ -202,6 +202,67 @@ def _structured(stmts, mk_result):
     return out
 
 
+def free_globals(prog, hm, cm, fnode):
+    """The body of a function that lives in module hm is moved into module cm: every free name of the body must mean there what
+    it meant at home.  Returns {name: import target to add to cm} or None when a name of the body is bound differently in cm
+    (capture: the body is then not moved)."""
+    a = fnode.args
+    local = {x.arg for x in a.posonlyargs + a.args + a.kwonlyargs} | {x.arg for x in (a.vararg, a.kwarg) if x}
+    for n in ast.walk(fnode):
+        if isinstance(n, ast.Name) and isinstance(n.ctx, (ast.Store, ast.Del)):
+            local.add(n.id)
+        elif isinstance(n, (ast.FunctionDef, ast.ClassDef)) and n is not fnode:
+            local.add(n.name)
+            if isinstance(n, ast.FunctionDef):
+                local |= {x.arg for x in n.args.posonlyargs + n.args.args + n.args.kwonlyargs}
+        elif isinstance(n, ast.Lambda):
+            local |= {x.arg for x in n.args.posonlyargs + n.args.args + n.args.kwonlyargs}
+        elif isinstance(n, (ast.Import, ast.ImportFrom)):
+            local |= {(x.asname or x.name).split(".")[0] for x in n.names}
+        elif isinstance(n, ast.ExceptHandler) and n.name:
+            local.add(n.name)
+
+    def bound(m, name):
+        return name in m.classes or name in m.functions or name in m.imports or name in m.globals
+
+    need = {}
+    for n in ast.walk(fnode):
+        if not (isinstance(n, ast.Name) and isinstance(n.ctx, ast.Load)) or n.id in local:
+            continue
+        name = n.id
+        if not bound(hm, name):
+            # a builtin (or an undefined name): the destination module must not shadow it
+            if bound(cm, name):
+                return None
+            continue
+        target = hm.imports[name] if name in hm.imports else f"{hm.name}.{name}"
+        if bound(cm, name):
+            there = cm.imports[name] if name in cm.imports else f"{cm.name}.{name}"
+            if there != target and prog.resolve(hm, name) != prog.resolve(cm, name):
+                return None
+            continue
+        need[name] = target
+    return need
+
+
+def add_imports(cm, need):
+    for name, target in sorted(need.items()):
+        if name in cm.imports:
+            continue
+        cm.imports[name] = target
+        modname, _, sym = target.rpartition(".")
+        if modname:
+            stmt = ast.ImportFrom(module=modname, names=[ast.alias(name=sym, asname=None if sym == name else name)], level=0)
+        else:
+            stmt = ast.Import(names=[ast.alias(name=target, asname=None if target == name else name)])
+        at = 0
+        for i, x in enumerate(cm.tree.body):
+            if isinstance(x, (ast.Import, ast.ImportFrom)) or (i == 0 and isinstance(x, ast.Expr) and isinstance(x.value, ast.Constant)):
+                at = i + 1
+        ast.fix_missing_locations(stmt)
+        cm.tree.body.insert(at, stmt)
+
+
 class Inliner:
     def __init__(self, prog, inventory):
         self.prog = prog
@@ -352,6 +413,8 @@ class Inliner:
             return False
         if helper.is_property:
             return False
+        if helper.module is not caller.module and self._free_globals(helper, caller) is None:
+            return False
         # a classmethod called through the class name (`Cls._m(...)`) is a function of the class: `cls` is that name; called
         # through an instance it may see a subclass, so it is left alone
         if helper.is_classmethod and not getattr(self, "_cls_call_ok", False):
@@ -375,6 +438,15 @@ class Inliner:
             if isinstance(c, ast.Call) and (dotted(c.func) or "").split(".")[-1] == helper.name:
                 return False
         return _tail_returns_only(body)
+
+    # ---- hygiene of inlining across modules ---------------------------------------------
+    def _free_globals(self, helper, caller):
+        return free_globals(self.prog, helper.module, caller.module, helper.node)
+
+    def _carry_imports(self, fn, helper):
+        """add to the caller's module the imports the inlined body needs (the names are bound exactly as in the helper's module)"""
+        if helper.module is not fn.module:
+            add_imports(fn.module, self._free_globals(helper, fn) or {})
 
     # ---- statement-level inlining -------------------------------------------------------
     def inline_function(self, fn):
@@ -530,6 +602,7 @@ class Inliner:
                     n.lineno = s.lineno
                     n.end_lineno = s.lineno
         self.inlined.append((fn.qual, h.qual))
+        self._carry_imports(fn, h)
         caller_names |= set(rename.values()) | {n.id for x in body for n in ast.walk(x) if isinstance(n, ast.Name)}
         return prelude + body
 
@@ -557,6 +630,7 @@ class Inliner:
                     n.lineno = call.lineno
                     n.end_lineno = call.lineno
         self.inlined.append((fn.qual, h.qual))
+        self._carry_imports(fn, h)
         caller_names |= set(rename.values()) | {n.id for x in body for n in ast.walk(x) if isinstance(n, ast.Name)}
         # expression helper: substitute in place
         if len(body) == 1 and isinstance(body[0], ast.Return) and not prelude:
@@ -909,6 +983,13 @@ def flatten_new_bases(prog, inv):
                 base = prog.classes[q]
                 if (c.qual, base.qual) in done:
                     continue
+                if base.module is not c.module:
+                    # the methods move to another module: their free names must keep their meaning there
+                    needs = [free_globals(prog, base.module, c.module, m_.node) for m_ in list(base.methods.values()) + list(base.setters.values())]
+                    if any(x is None for x in needs):
+                        continue
+                    for x in needs:
+                        add_imports(c.module, x)
                 for name, m in list(base.methods.items()) + [(n + ".setter", m_) for n, m_ in base.setters.items()]:
                     is_setter = name.endswith(".setter")
                     plain = name[:-7] if is_setter else name
